@@ -37,7 +37,7 @@ OPTS = [
     ([dict(k="ip", type=0x06, addr="2001:db8::1", proto=6, port=30502)], [dict(k="cfg", items=[["a", "b"]])]),
     ([], []),
 ]
-INST = [(0x4000, 1, 1, 7), (0x4000, 2, 1, 0), (0x5000, 1, 3, 9)]
+INST = [(0x4000, 0x0101, 1, 0x10007), (0x4000, 0x0102, 1, 0), (0x5000, 0x0101, 3, 0x99999)]
 
 
 @st.composite
